@@ -9,6 +9,7 @@ import (
 	"io"
 	"net"
 	"strings"
+	"sync"
 	"time"
 
 	ch "github.com/ClickHouse/ch-go"
@@ -262,11 +263,16 @@ func (c *Conn) Probe(scn string) (pr ProbeResult) {
 }
 
 // failing callback helper: returns an error on the n-th call (1-based), 0 = never.
-type failAt struct{ n, calls int }
+type failAt struct {
+	mu       sync.Mutex // callbacks run on the sender and on the receiver goroutine
+	n, calls int
+}
 
 var errCallback = errors.New("callback-fail")
 
 func (f *failAt) hit() error {
+	f.mu.Lock()
+	defer f.mu.Unlock()
 	f.calls++
 	if f.n != 0 && f.calls == f.n {
 		return errCallback
